@@ -216,13 +216,14 @@ type c19Fail struct {
 }
 
 type c19RetryCase struct {
-	Kind    string    `json:"kind"` // pub1 pub2 sub unsub
-	Topic   string    `json:"topic"`
-	Payload []byte    `json:"payload"`
-	Retain  bool      `json:"retain"`
-	ID      int       `json:"id"`
-	Subs    []c05Sub  `json:"subs,omitempty"`
-	Fails   []c19Fail `json:"fails"` // one interruption per client; after them a healthy client
+	Kind     string    `json:"kind"` // pub1 pub2 sub unsub
+	Topic    string    `json:"topic"`
+	Payload  []byte    `json:"payload"`
+	Retain   bool      `json:"retain"`
+	ID       int       `json:"id"`
+	Subs     []c05Sub  `json:"subs,omitempty"`
+	Fails    []c19Fail `json:"fails"`              // one interruption per client; after them a healthy client
+	StaleDup bool      `json:"staleDup,omitempty"` // the application's Message has Dup=true left over (forwarded / re-used message)
 }
 
 var errC19Write = errors.New("verif: injected transport write failure")
@@ -296,7 +297,7 @@ func c19RetryRun(tb rapid.TB, c c19RetryCase) { c19RetryRunProp(tb, c, "C19") }
 // additionally checks "no PUBLISH once a PUBREL was written".
 func c19RetryRunProp(tb rapid.TB, c c19RetryCase, prop string) {
 	payload := append([]byte{}, c.Payload...)
-	msg := &Message{Topic: c.Topic, Payload: payload, Retain: c.Retain, ID: uint16(c.ID)}
+	msg := &Message{Topic: c.Topic, Payload: payload, Retain: c.Retain, ID: uint16(c.ID), Dup: c.StaleDup}
 	subs := make([]Subscription, len(c.Subs))
 	filters := make([]string, len(c.Subs))
 	for i, s := range c.Subs {
@@ -491,6 +492,7 @@ func TestVerifC12_RetryHandle(t *testing.T) {
 		for i := 0; i < nf; i++ {
 			c.Fails = append(c.Fails, c19GenFail(rt, c.Kind))
 		}
+		c.StaleDup = rapid.IntRange(0, 2).Draw(rt, "staleDup") == 0
 		return c
 	}, func(tb rapid.TB, c c19RetryCase) { c19RetryRunProp(tb, c, "C12") })
 }
